@@ -2,6 +2,5 @@ package checks
 
 import "verif/vf"
 
-// Temporary stubs until the codec parts are merged.
-func MetaCodec(c *vf.Ctx)  {}
-func ErrorCodec(c *vf.Ctx) {}
+// Temporary stub until the wire parts (C09/C18 builder) are merged.
+func C13Wire(c *vf.Ctx) {}
